@@ -378,7 +378,7 @@ func ruleC20(c *Ctx) {
 		c.floor("C20-R1/fields", 6)
 	}
 	// R4: the compared fields of the result are exactly what was decoded — nobody assigns them afterwards
-	c.rule("C20-R4", "header fields (ID, InResponseTo, Destination, Version, Issuer) of Response / LogoutResponse / UnverifiedBaseResponse are written by the XML decoder only: no store to them anywhere in library scope (positive control must fire)")
+	c.rule("C20-R4", "header fields (ID, InResponseTo, Destination, Version, Issuer) of Response / LogoutResponse / UnverifiedBaseResponse, and the fields of the types.Issuer object they point to, are written by the XML decoder only: no store to them anywhere in library scope (positive control must fire)")
 	hdr := map[string]bool{"ID": true, "InResponseTo": true, "Destination": true, "Version": true, "Issuer": true}
 	scanHdr := func(fns []*ssa.Function, report bool) int {
 		n := 0
@@ -398,12 +398,20 @@ func ruleC20(c *Ctx) {
 						continue
 					}
 					on := typeStr(owner)
-					if on != "types.Response" && on != "types.LogoutResponse" && on != "types.UnverifiedBaseResponse" {
-						continue
-					}
 					fn := owner.Underlying().(*types.Struct).Field(fa.Field).Name()
-					if !hdr[fn] {
-						continue
+					if on == "types.Issuer" {
+						// the Issuer object hanging off a decoded header: every field counts, except while a fresh
+						// composite literal is being filled (assigning that literal to a header is caught above)
+						if a, isAlloc := fa.X.(*ssa.Alloc); isAlloc && a.Comment == "complit" {
+							continue
+						}
+					} else {
+						if on != "types.Response" && on != "types.LogoutResponse" && on != "types.UnverifiedBaseResponse" {
+							continue
+						}
+						if !hdr[fn] {
+							continue
+						}
 					}
 					n++
 					if report {
